@@ -62,6 +62,8 @@ ZSTD_compressSubBlock_literal(const HUF_CElt* hufTable,
       return ZSTD_noCompressLiterals(dst, dstSize, literals, litSize);
     } else if (hufMetadata->hType == set_rle) {
       DEBUGLOG(5, "ZSTD_compressSubBlock_literal using rle literal");
+      /* up to 3 bytes of header + 1 byte : ZSTD_compressRleLiteralsBlock() only asserts the room */
+      RETURN_ERROR_IF(dstSize < 4, dstSize_tooSmall, "not enough space for an rle literals section");
       return ZSTD_compressRleLiteralsBlock(dst, dstSize, literals, litSize);
     }
 
